@@ -1056,13 +1056,13 @@ class DeepDiff(ResultDict, SerializationMixin, DistanceMixin, DeepDiffProtocol, 
 
         if isinstance(level.t1, bytes_type):
             try:
-                t1_str = level.t1.decode('ascii')
+                t1_str = level.t1.decode('utf-8')
             except UnicodeDecodeError:
                 do_diff = False
 
         if isinstance(level.t2, bytes_type):
             try:
-                t2_str = level.t2.decode('ascii')
+                t2_str = level.t2.decode('utf-8')
             except UnicodeDecodeError:
                 do_diff = False
 
